@@ -997,6 +997,94 @@ pub fn clock_link_case(r: &mut Rng) -> Result<u64, String> {
 	Ok(checked)
 }
 
+// ---------------------------------------------------------------- a scheduled transition called off
+
+/// A tweener holds a value exactly (its initial value, or the target of a finished transition). A transition to a far value is
+/// scheduled - delayed start, a clock time ahead, or a clock that is not running - and, before it begins, called off by a
+/// second `set()` to exactly the held value (instant or with a duration). The tweener must stay at the held value in every
+/// chunk from then on: the second command replaces the first whatever its target. Returns the number of chunks checked.
+pub fn tweener_cancel_case(r: &mut Rng) -> Result<u64, String> {
+	let sr = 1000u32;
+	let ibs = *r.pick(&[1usize, 4, 10]);
+	let chunks = |k: f64| Duration::from_secs_f64(k * ibs as f64 / sr as f64);
+	let mut rig = Rig::simple(sr, ibs);
+	let v0 = if r.chance(0.5) { 0.0 } else { r.f64_in(-2.0, 2.0) };
+	let mut b = rig.mgr.add_modulator(TweenerBuilder { initial_value: v0 }).map_err(|_| "b")?;
+	let mut clock = rig.mgr.add_clock(kira::clock::ClockSpeed::TicksPerSecond(sr as f64 / ibs as f64)).map_err(|_| "clock")?;
+	let stamps = Arc::new(Stamps::default());
+	let log = Arc::new(Mutex::new(FxLog { rows: (0..512).map(|_| (0, usize::MAX, vec![0.0; 1])).collect() }));
+	let params = vec![Parameter::new(Value::FromModulator { id: b.id(), mapping: Map::ident().to_kira() }, 0.0)];
+	let _t = rig.mgr.add_sub_track(TrackBuilder::new().with_effect(ReaderFxBuilder(ReaderFx { params, log: log.clone(), stamps })));
+	rig.callback(ibs);
+	let mut n_cb = 1usize;
+	let mut hist = vec![format!("tweener at {}", v0)];
+	let mut held = v0;
+	if r.chance(0.5) {
+		let x = r.f64_in(-2.0, 2.0);
+		let d = r.usize_in(0, 3);
+		b.set(x, Tween { duration: chunks(d as f64), ..Default::default() });
+		for _ in 0..6 {
+			rig.callback(ibs);
+		}
+		n_cb += 6;
+		held = x;
+		hist.push(format!("set({}, {} chunks) completed", x, d));
+	}
+	let held_from = n_cb;
+	let far = held + (2.0 + r.f64_in(0.0, 3.0)) * if r.chance(0.5) { 1.0 } else { -1.0 };
+	let n = r.usize_in(3, 8);
+	let variant = r.below(3);
+	let start = match variant {
+		0 => StartTime::Delayed(chunks(n as f64 + 0.5)),
+		1 => {
+			clock.start();
+			StartTime::ClockTime(kira::clock::ClockTime::from_ticks_u64(clock.id(), n as u64))
+		}
+		_ => StartTime::ClockTime(kira::clock::ClockTime::from_ticks_u64(clock.id(), 0)),
+	};
+	let d1 = r.usize_in(0, 3);
+	b.set(far, Tween { start_time: start, duration: chunks(d1 as f64), easing: Easing::Linear });
+	hist.push(format!("set({}, {} chunks) scheduled for {}", far, d1, ["a delay of n + 0.5 chunks", "tick n of a running clock (1 tick per chunk)", "tick 0 of a clock that is not running"][variant as usize]));
+	let wait = r.usize_in(1, n - 2);
+	for _ in 0..wait {
+		rig.callback(ibs);
+	}
+	n_cb += wait;
+	let d2 = *r.pick(&[0usize, 0, 2, 5]);
+	b.set(held, Tween { duration: chunks(d2 as f64), ..Default::default() });
+	hist.push(format!("{} callbacks later (n = {}): set({}, {} chunks)", wait, n, held, d2));
+	for _ in 0..n + 8 {
+		rig.callback(ibs);
+	}
+	n_cb += n + 8;
+	if variant == 2 {
+		clock.start();
+		for _ in 0..6 {
+			rig.callback(ibs);
+		}
+		n_cb += 6;
+		hist.push("clock started".into());
+	}
+	let l = log.lock().unwrap();
+	let mut checked = 0;
+	for k in held_from..n_cb {
+		if l.rows[k].1 == usize::MAX {
+			break;
+		}
+		let v = l.rows[k].2[0];
+		// (the reading passes through an identity mapping over -1000..1000, which rounds in the 13th digit; the called-off
+		// target is at least 2 away)
+		if (v - held).abs() > 1e-9 {
+			return Err(format!("tweener: a scheduled transition was replaced by set(<the value it holds>) before it began, yet in chunk {} the tweener reads {} instead of {} [{}]", k, v, held, hist.join("; ")));
+		}
+		checked += 1;
+	}
+	if checked < 8 {
+		return Err(format!("tweener cancel case observed only {} chunks", checked));
+	}
+	Ok(checked)
+}
+
 // ---------------------------------------------------------------- forward link (known behaviour to be judged)
 
 const FWD_KEY: &str = "C17.modulator_relinked_to_later_modulator_lags_one_chunk";
@@ -1048,6 +1136,7 @@ pub fn run(ctx: &mut Ctx) {
 	let mut curve_points = 0u64;
 	let mut fwd_known = 0u64;
 	let mut clock_points = 0u64;
+	let mut cancel_points = 0u64;
 	let mut extra = [0u64; 3];
 	for i in 0..n {
 		if !ctx.owns("mod", i) {
@@ -1070,6 +1159,10 @@ pub fn run(ctx: &mut Ctx) {
 				3 => clock_link_case(&mut r).map(|k| {
 					clock_points += k;
 					3 << 20
+				}),
+				4 if i % 3 == 0 => tweener_cancel_case(&mut r).map(|k| {
+					cancel_points += k;
+					5 << 20
 				}),
 				2 => forward_link_case(&mut r).and_then(|same| {
 					if same {
@@ -1113,6 +1206,7 @@ pub fn run(ctx: &mut Ctx) {
 	ctx.count("hold_after_removal_checks", extra[2]);
 	ctx.count("lfo_curve_points_checked", curve_points);
 	ctx.count("clock_speed_link_chunks_checked", clock_points);
+	ctx.count("tweener_called_off_transition_chunks_checked", cancel_points);
 	if fwd_known > 0 {
 		ctx.count("forward_link_cases_matching_known_finding", fwd_known);
 		ctx.exclude(FWD_KEY);
